@@ -108,6 +108,25 @@ theorem C09_no_memory (cc : CorsCfg) (tbl : Config) (reqs : List CorsReq) :
   | nil => rfl
   | cons r rs ih => simp [corsSeq, filterCall, ih]
 
+/-- The same on a container whose route table changes between the requests (routes added to /
+    removed from a WebService that is already registered): every request is answered from the table
+    in force when it arrives — neither the filter value nor anything else remembers what an earlier
+    preflight computed for the URL.  What makes it a statement about the code, besides the value
+    receiver: `computeAllowedMethods` reads `c.webServices` and `ws.routes` on every call and the
+    Container has no further field (`StateShape.container_shape`, a generated-facts obligation); the
+    history stream of the harness changes route tables between preflights to one URL on every run. -/
+theorem C09_no_memory_tables (cc : CorsCfg) (reqs : List (Config × CorsReq)) :
+    corsSeqT lower E cc reqs = reqs.map (fun p => corsOut lower E cc p.1 p.2) := by
+  induction reqs with
+  | nil => rfl
+  | cons r rs ih => obtain ⟨tbl, rq⟩ := r; simp [corsSeqT, filterCall, ih]
+
+/-- with a table that never changes `corsSeqT` is `corsSeq` -/
+theorem C09_tables_const (cc : CorsCfg) (tbl : Config) (reqs : List CorsReq) :
+    corsSeqT lower E cc (reqs.map (fun rq => (tbl, rq))) = corsSeq lower E tbl cc reqs := by
+  rw [C09_no_memory_tables, C09_no_memory, List.map_map]
+  rfl
+
 /-- The property's predicate holds of the model's outcome, for every input and in front of every
     rest `k` of the container (`Cors.Rest`: later filters, route function or the router's error
     answer — an arbitrary function of the header lines already on the response).
@@ -315,6 +334,17 @@ example : (Spec.actualHeaders ccFull actual).length = 4 := by decide
 
 /-- `C09_no_memory` on a history of three requests -/
 example := C09_no_memory toLowerAscii exEnv exCc exTbl [exPre "/a" "GET" "", pre, actual]
+
+/-- `C09_no_memory_tables`: a preflight for PUT at `/b/7` is granted, the PUT route is removed from the
+    registered WebService, the same preflight is refused (no grant at all); the route comes back, it is
+    granted again -/
+def exTblNoPut : Config := { exTbl with services := exTbl.services.map fun s => { s with routes := s.routes.filter (·.method != "PUT".toList) } }
+example :
+    (corsSeqT toLowerAscii exEnv exCc [(exTbl, exPre "/b/7" "PUT" ""), (exTblNoPut, exPre "/b/7" "PUT" ""), (exTbl, exPre "/b/7" "PUT" "")]).map
+      (fun o => o.map (·.added.length)) = [some 3, some 0, some 3] := by
+  decide
+example := C09_no_memory_tables toLowerAscii exEnv exCc [(exTbl, pre), (exTblNoPut, pre), (exTbl, actual)]
+example := C09_tables_const toLowerAscii exEnv exCc exTbl [pre, actual]
 
 /-- RouterJSR311, three services (`/a`, `/b`, `/b/{id}/sub` with an If-condition); exactly one root
     matches `/b/7` -/
